@@ -769,6 +769,7 @@ func randSig(r *rand.Rand) SigSpec {
 }
 
 func runC11(w *core.W) {
+	runC11PathArgs(w)
 	r := w.RNG("sigs")
 	idx := 0
 	run := func(c *BridgeCase) {
